@@ -45,7 +45,8 @@ def source(i, deps, kind, salt=0):
     elif style == 2:
         # a leading declaration that completes before the ones holding the edges of the graph
         imp = "(import (scheme base)) " + "".join("(import %s) " % edge(i, j, salt) for j in deps)
-    name = "(g zzz)" if kind == "wrongname" else "(g %s)" % n
+    # a file that defines a library of another name: an unrelated one, a proper prefix of the requested name, or an extension of it
+    name = ["(g zzz)", "(g)", "(g %s extra)" % n, "(g %s 0)" % n][(i + salt) % 4] if kind == "wrongname" else "(g %s)" % n
     body = "(define v%s no-such-variable-%s)" % (n, n) if kind == "faulting" else "(define v%s %d)" % (n, 10 + i)
     if kind == "nobase":
         body = "(define v%s (+ %d 0))" % (n, 10 + i)
@@ -251,6 +252,57 @@ def macro_libraries(ctx, root, decoy, leg):
         if good:
             ctx.count("macro_library_histories"); ctx.nontriv("ml|%s|%s|%s" % (mode, "/".join(order), second))
     ctx.legs.append("macro-libraries")
+
+
+def multi_library_sources(ctx, root, decoy, leg):
+    """library FILES that hold several define-library forms: only the library that was asked for (and is named like the file) comes out of a file, whether
+    the load succeeds or fails - the other forms of the file never become importable under their own names, in any order of the attempts"""
+    d = os.path.join(root, "multi")
+    os.makedirs(os.path.join(d, "g"), exist_ok=True)
+    files = {
+        # helper first, then a library of another name than the file: (g s) is not found, and (g s impl) has no file of its own
+        "s": "(define-library (g s impl) (export vsi) (begin (define vsi 1)))\n(define-library (g zzz) (export vz) (begin (define vz 2)))\n",
+        # helper first, then the requested library broken off in the middle
+        "n": "(define-library (g n codec) (export vc) (begin (define vc 1)))\n(define-library (g n) (export vn) (begin (define vn",
+        # helper first, then the requested library, healthy
+        "t": "(define-library (g t helper) (export vh) (begin (define vh 5)))\n(define-library (g t) (export vt) (begin (define vt 6)))\n",
+        # the requested library first, a helper after it
+        "u": "(define-library (g u) (export vu) (begin (define vu 7)))\n(define-library (g u helper) (export vuh) (begin (define vuh 8)))\n",
+    }
+    for n, src in files.items():
+        open(os.path.join(d, "g", n + ".sld"), "w").write(src)
+    want = {"(g s)": ("err", "Logic.LibraryNotFound"), "(g s impl)": ("err", "Logic.LibraryNotFound"), "(g zzz)": ("err", "Logic.LibraryNotFound"),
+            "(g n)": ("err", "Syntax."), "(g n codec)": ("err", "Logic.LibraryNotFound"),
+            "(g t)": ("ok", None), "(g t helper)": ("err", "Logic.LibraryNotFound"), "(g u)": ("ok", None), "(g u helper)": ("err", "Logic.LibraryNotFound")}
+    names = list(want)
+    spec = {"stdlib": False, "natives": False, "progdir": d}
+    jobs, meta = [], []
+    for h in itertools.permutations(names, 3):
+        jobs.append({"id": "c14ml", "interps": [spec], "steps": [{"src": "(import %s)" % x} for x in h] + [{"env_names": True}], "fuel": 50000}); meta.append(h)
+    recs = core.run_jobs(jobs, leg, timeout=900, tag="c14ml", env_extra={"__cwd": decoy})
+    for h, rec in zip(meta, recs):
+        if rec is None or "steps" not in rec:
+            ctx.inconclusive_cases += 1; continue
+        good = True
+        for x, st in zip(h, rec["steps"]):
+            ctx.evaluations += 1
+            k, v = core.outcome(st)
+            wk, wv = want[x]
+            if (wk == "ok") != (k == "ok") or (wk == "err" and not str(v.get("kind", "")).startswith(wv)):
+                ctx.violation({"what": "a library file holding several libraries: an import did not end as the files alone determine (only the library named like the file "
+                                       "comes out of it)", "kind": "multi-library-file", "imports": list(h), "failed_at": x, "expected": wv or "success",
+                               "observed": (v if k != "ok" else "import succeeded"), "dedupe": "mlf|%s|%s" % (x, k)}, {"imports": list(h)})
+                good = False; break
+        if good:
+            kn, nv = core.outcome(rec["steps"][-1])
+            got = sorted(nv) if kn == "ok" and isinstance(nv, dict) else None
+            exp = sorted({"(g t)": "vt", "(g u)": "vu"}[x] for x in h if want[x][0] == "ok")
+            if got != exp:
+                ctx.violation({"what": "names bound after importing from multi-library files differ from the exports of the libraries imported successfully", "kind": "multi-library-file",
+                               "imports": list(h), "expected": exp, "observed": got, "dedupe": "mlf-names"}, {"imports": list(h)})
+            else:
+                ctx.count("multi_library_file_histories"); ctx.nontriv("mlf|" + "/".join(h))
+    ctx.legs.append("multi-library-files")
 
 
 def resupply(ctx, root, decoy, leg):
@@ -524,6 +576,7 @@ def run(tier, seed):
     program_directories(ctx, root, decoy, leg)
     resupply(ctx, root, decoy, leg)
     macro_libraries(ctx, root, decoy, leg)
+    multi_library_sources(ctx, root, decoy, leg)
     for (mode, n, adj, kinds, hist) in meta[:3] + meta[-2:]:
         ctx.sample({"mode": mode, "imports": {NAMES[i]: [NAMES[j] for j in adj[i]] for i in range(n)}, "kinds": list(kinds), "histories": len(hist)})
     shutil.rmtree(root, ignore_errors=True)
